@@ -105,7 +105,7 @@ pub fn gen_text(r: &mut Rng) -> String {
 fn gen_label(r: &mut Rng) -> Label {
     match r.below(6) {
         0 => Label::Id(r.below(5) as u32), 1 => Label::Id(r.next() as u32),
-        2 => Label::Named((*r.pick(&["record", "opt", "service", "nat", "null", "blob", "principal", "query", "import"])).to_string()),
+        2 => Label::Named((*r.pick(crate::ops::c15::KEYWORDS)).to_string()),      // every word the grammar reserves
         3 => Label::Named(gen_text(r)),
         _ => Label::Named((*r.pick(&["a", "b", "c", "name", "_x", "X1", "id", "héllo", "a b", "1a", ""])).to_string()),
     }
@@ -200,6 +200,13 @@ pub fn generate(thorough: bool, r: &mut Rng, em: &mut Emit) {
             em.case_nt("c11.print_label", &[scalars_sx(&s3)], true);
         }
     } }
+    // every reserved word of the grammar as a label (it has to be quoted), next to near-misses that need no quotes
+    for k in crate::ops::c15::KEYWORDS {
+        for s in [k.to_string(), format!("{}_", k), format!("_{}", k), k.to_uppercase(), format!("{}1", k)] {
+            em.stat("label.keyword-or-near-miss");
+            em.case_nt("c11.print_label", &[scalars_sx(&s)], true);
+        }
+    }
     for _ in 0..400 * scale {
         let s = gen_text(r);
         em.stat("text.random");
